@@ -82,7 +82,8 @@ def slack_rules(ctx, name, convert):
         return all(body.dominates(bb, pb) for pb in push_bbs) or must_pass_v(body, 0, push_bbs, {bb})
     # the instance is also modified on the always-satisfied path (relax_constraint moves the constraint): the rejection guards
     # (lookup, inequality, function present, every variable known and integral) must precede EVERY modification
-    mut_bbs = push_bbs | {c.bb for c in body.calls if c.item == 'relax_constraint' and c.path.endswith('relax_constraint')}
+    mut_bbs = push_bbs | {c.bb for c in body.calls if (c.item == 'relax_constraint' and c.path.endswith('relax_constraint'))
+                          or (c.item in ('remove', 'swap_remove') and re.search(r'Vec::<v1::Constraint>::', c.name))}
     def before_mutation(bb): return all(body.dominates(bb, mb) for mb in mut_bbs)
     oks = body.strict_ok_exits()
     # ---- g1: constraint lookup by id; not found => error
@@ -214,8 +215,23 @@ def slack_rules(ctx, name, convert):
         bi, g = always
         r = reach_v(body, [g.true_bb])
         relax = [c for c in body.calls if c.bb in r and c.item == 'relax_constraint' and c.path.endswith('relax_constraint')]
-        ctx.check(bool(relax) and not (push_bbs & r) and bool(r & body.strict_ok_exits()), R + '/guards/always/relax-and-return', 'T-BRANCHFX', body.name,
+        # RELAX idiom, written out: `let c = self.constraints.remove(i); self.removed_constraints.push(RemovedConstraint { constraint: Some(c), .. })`
+        # with i looked up by the given id — the removed constraint itself is what is pushed
+        inl = []
+        for rm in body.calls:
+            if rm.bb in r and rm.item in ('remove', 'swap_remove') and re.search(r'Vec::<v1::Constraint>::', rm.name) and ctx.S.slice_operand(body, rm.args[0]).has_field(INST, 'constraints'):
+                for pu in body.calls:
+                    if pu.bb in r and pu.item == 'push' and re.search(r'Vec::<v1::RemovedConstraint>::push', pu.name) and ctx.S.slice_operand(body, pu.args[0]).has_field(INST, 'removed_constraints') \
+                            and rm in ctx.S.slice_operand(body, pu.args[1]).call_objs and 2 in ctx.S.slice_operand(body, rm.args[1]).params:
+                        inl.append((rm, pu))
+        ctx.check((bool(relax) or bool(inl)) and not (push_bbs & r) and bool(r & body.strict_ok_exits()), R + '/guards/always/relax-and-return', 'T-BRANCHFX', body.name,
                   '`upper <= 0` does not relax the constraint and return without a new variable', body.site(bi))
+        if inl and not relax:
+            rm, pu = inl[0]
+            ctx.ok(R + '/guards/always/relax-same-id', 'T-CARRY', body.site(rm.bb), how='constraints.remove(index looked up by the given id) pushed to removed_constraints')
+            # the lookup failing must be an error, and nothing is removed before it is known to succeed
+            rr = reach_v(body, [g.true_bb], stop={rm.bb})
+            ctx.check(not (rr & body.strict_ok_exits()), R + '/guards/always/relax-error', 'T-ERRFLOW', body.name, 'the always-satisfied path can return Ok without moving the constraint', body.site(rm.bb))
         for c in relax:
             ctx.check(c.args[1]['k'] in ('copy', 'move') and T.access_path(body, c.args[1])[1] == 2, R + '/guards/always/relax-same-id', 'T-CARRY', body.name, 'relax_constraint is not called with the given id', body.site(c.bb))
             errflow_calls(ctx, R + '/guards/always/relax-error', body, [c], 'relax_constraint result')
@@ -228,6 +244,17 @@ def slack_rules(ctx, name, convert):
         feats['always'] = True
     if not convert: unrounded_rule(ctx, R, body)
     if convert:
+        # the multiplier a is the content factor of the constraint's OWN function: the receiver of content_factor() is constraint.function
+        # through clone / borrow only — not f minus its constant, not a sum, not a scaled or otherwise rewritten copy
+        cfs = [c for c in body.calls if c.item == 'content_factor' and c.path.endswith('impl v1::Function>::content_factor') and c.args]
+        rew = []
+        for c in cfs:
+            e = xexpr(body, c.args[0])
+            arith = [x for x in T.expr_walk(e) if x[0] == 'call' and re.search(r'std::ops::(Sub|Add|Mul|Div|Neg|SubAssign|AddAssign|MulAssign)\b', x[2])]
+            if arith or not ctx.S.slice_operand(body, c.args[0]).has_field(CON, 'function'): rew.append((c, arith[0][1] if arith else 'not constraint.function'))
+        ctx.check(bool(cfs) and not rew, R + '/coef/a-of-f', 'T-CARRY', body.name,
+                  'content_factor() is taken of a rewritten function (%s), not of the constraint function itself' % (rew[0][1] if rew else 'no content_factor call'),
+                  body.site(rew[0][0].bb) if rew else body.site())
         hull_rule(ctx, R, body)
         # g7: slack range limit
         lim = None
@@ -757,4 +784,4 @@ def check(ctx):
     b = slack_rules(ctx, 'add_integer_slack_to_inequality', False)
     # sibling agreement on the shared guard set
     ctx.check(a == b, 'C13.sibling/guard-set', 'T-SIBLING', 'convert_… vs add_…', 'guard sets differ: convert=%s add=%s' % (sorted(a.items()), sorted(b.items())))
-    ctx.floor('C13.convert', 46); ctx.floor('C13.add', 45); ctx.floor('C13.bound', 4)
+    ctx.floor('C13.convert', 47); ctx.floor('C13.add', 45); ctx.floor('C13.bound', 4)
